@@ -3,7 +3,7 @@
    list the first comprehension produced (`i not in modes_fixed`): on the indices of `factors` the two conditions are the same
    function, and `pick` only evaluates its condition there (pick_ext).  tk_tie2 normalises such conditions before comparing. *)
 From Coq Require Import List Arith Bool Lia ZArith.
-From TLV Require Import Base.Shape Base.PyList Base.Tensor Model.WarmStart Proofs.WarmStartProofs2 Proofs.WarmStartTucker Proofs.WarmStartP2
+From TLV Require Import Base.Shape Base.PyList Base.Tensor Model.WarmStart Proofs.WarmStartProofs Proofs.WarmStartProofs2 Proofs.WarmStartTucker Proofs.WarmStartP2
   Proofs.WarmStartSrc2.
 Import ListNotations.
 
@@ -215,3 +215,59 @@ Lemma pt_sweep_at_mode_differs :
 Proof.
   intros H. specialize (H (fun _ _ _ _ => [[9%Z]]) 0 [1] (mkpts (mk [1] [1%Z]) [[[1%Z]]; [[2%Z]]] tt)). vm_compute in H. discriminate.
 Qed.
+
+(* ------------------------------------------------------------------ interrupted runs: the state INSIDE a sweep.
+   A run that is aborted in mid-sweep (an exception out of a backend call, KeyboardInterrupt) leaves the driver in the state reached after some
+   number of complete iterations, the orthogonalise hook of the current iteration (if on) and the updates of a PREFIX of the mode list.  In every
+   such state the factor of a fixed mode is the initial one: the statement of C14_fixed_modes holds at every moment of the run, not only at
+   its end.  (Default normalisation, as in C14_fixed_modes; `it` is the number of the interrupted iteration, any number.) *)
+Section Interrupted.
+  Context {M W X : Type}.
+  Variable upd : nat -> nat -> st M W X -> M * X.
+  Variable stop : nat -> st M W X -> bool.
+  Variable normf : st M W X -> st M W X.
+  Variable pre : nat -> nat -> st M W X -> M.
+  Variable pre_on : nat -> bool.
+  Variable post : nat -> st M W X -> X.
+  Variable ls_on : nat -> bool.
+  Variable ls_accept : nat -> st M W X -> st M W X -> bool.
+  Variable lsf : nat -> st M W X -> M -> M -> M.
+  Variable lsw : nat -> st M W X -> W -> W -> W.
+  Variable lsx : nat -> st M W X -> st M W X -> X.
+
+  Notation interrupted_state := (interrupted_state upd stop normf pre pre_on post ls_on ls_accept lsf lsw lsx).
+
+  Theorem interrupted_fixed a free ml d m : ~ In m ml -> free m = false ->
+    (has_hooks a = true -> forall it s x, lsf it s x x = x) ->
+    forall done_ it l s, (forall x, In x l -> In x ml) ->
+    nth m (facs (interrupted_state a free ml done_ it l s)) d = nth m (facs s) d.
+  Proof.
+    intros Hn Hfree Hls done_ it l s Hl. unfold WarmStart.interrupted_state.
+    rewrite (fold_step_other upd normf a it ml d m) by (intros H; apply Hn, Hl, H).
+    assert (Hit : forall b i0 s1, nth m (facs (iterate upd stop normf false pre pre_on post ls_on ls_accept lsf lsw lsx a free b i0 ml s1)) d = nth m (facs s1) d).
+    { intros b i0 s1. apply (iterate_other upd stop normf pre pre_on post ls_on ls_accept lsf lsw lsx a free ml d m Hn Hfree Hls). }
+    destruct (has_hooks a && pre_on it).
+    - unfold pre_state; cbn [facs]. rewrite (pre_apply_other _ free d _ 0 m) by exact Hfree. apply Hit.
+    - apply Hit.
+  Qed.
+
+  (* in the terms of a call: modes_list / eff_fixed of the request *)
+  Theorem run_interrupted_fixed a n fixed d m : (has_hooks a = true -> forall it s x, lsf it s x x = x) ->
+    In m (eff_fixed a n fixed) ->
+    forall done_ it l s, (forall x, In x l -> In x (modes_list a n fixed)) ->
+    nth m (facs (interrupted_state a (fun i => negb (memb i (eff_fixed a n fixed))) (modes_list a n fixed) done_ it l s)) d = nth m (facs s) d.
+  Proof.
+    intros Hls Hin done_ it l s Hl. apply interrupted_fixed; auto.
+    - intros H. apply modes_list_In in H. tauto.
+    - apply negb_false_iff. now apply memb_In.
+  Qed.
+End Interrupted.
+
+(* non-vacuity: parafac on three modes, mode 0 fixed, interrupted in iteration 1 after one complete iteration and after the update of mode 1 only:
+   mode 0 untouched, mode 1 written twice, mode 2 once *)
+Example interrupted_example :
+  facs (interrupted_state (fun it m (s : st (list nat) unit unit) => (nth m (facs s) [] ++ [it], tt)) (fun _ _ => false) (fun s => s)
+          (fun _ _ _ => []) (fun _ => false) (fun _ _ => tt) (fun _ => false) (fun _ _ _ => false) (fun _ _ l c => c) (fun _ _ l c => c) (fun _ _ _ => tt)
+          Parafac (fun i => negb (memb i [0])) (modes_list Parafac 3 [0]) 1 1 [1] (mkst tt [[]; []; []] tt))
+  = [[]; [0; 1]; [0]].
+Proof. vm_compute. reflexivity. Qed.
